@@ -215,6 +215,30 @@ def uses(term, callee, *syms):
     return bool(hit) and all(tm.has_sym(hit[0], s) for s in syms)
 
 
+def o17_defocus_array(ctx):
+    """defocus_load(<N x 5 array>): one row per tilt, the five columns named defocus1, defocus2, astigmatism, phase_shift, defocus_mean in the
+    order given -- for every N (5 tilts included)"""
+    q = IO + "defocus_load"
+    m, fn = ctx.prog.func(q)
+    ctx.touched(q)
+    S_ = Space("the caller's defocus table", how="root")
+    src_ = Arr([sym(f"d{k}") for k in range(5)], 2, space=S_)
+    it = Interp(ctx.prog, assume=assume_map({"isinstance(input_data, str)": False, "isinstance(input_data, pd.DataFrame)": False}))
+    r = it.run(q, [typed(src_, "ndarray")], {})
+    d = r.ret
+    names = ["defocus1", "defocus2", "astigmatism", "phase_shift", "defocus_mean"]
+    if not isinstance(d, Frame) or d.order is None:
+        raise Unsupported("defocus_load(<N x 5 array>) does not return a table", fn)
+    ctx.count(1, {"defocus_load(array)": {c: tm.show(t)[:40] for c, t in d.cols.items()}})
+    if list(d.order) != names:
+        ctx.finding(q, "array input", f"an N x 5 array must come back with the columns {names} (got {list(d.order)})", fn, m)
+        return
+    for k, c in enumerate(names):
+        ctx.count(1)
+        if d.cols[c] != sym(f"d{k}"):
+            ctx.finding(q, f"array input, column {c}", f"column {c} must be column {k} of the array as given; it becomes {tm.show(d.cols[c])[:100]}", fn, m)
+
+
 def o174(ctx):
     q = "wedgeutils.create_wedge_list_sg"
     m, fn = ctx.prog.func(q)
@@ -242,6 +266,37 @@ def o174(ctx):
             node = last_store(it, f, c) or fn
             ctx.finding(q, node, f"wedge-list column {c!r} must hold the like-named input ({ {'tilt_angle': 'tilts of tlt_file', 'defocus': 'defocus_mean of ctf_file', 'exposure': 'dose of dose_file', 'z_shift': 'z-shift'}.get(c, c) })",
                         node, m, extracted=tm.show(t)[:120] if t is not None else None)
+    # the per-image columns hold the loaders' values themselves: widening conversions and re-wrapping apart, nothing acts on them (no rounding,
+    # scaling, clipping) -- the wedge list states the tilt, defocus and dose of image i as the input files give them
+    KEEP = ("numpy.asarray", "numpy.array", "numpy.atleast_1d", "numpy.ravel", ".ravel", ".flatten", ".to_numpy", ".copy", "numpy.squeeze", "numpy.float64", "float")
+
+    def bare(t_):
+        while t_.op in ("float",) or (t_.op == "call" and str(t_.args[0]) in KEEP and len(t_.args) >= 2) \
+                or (t_.op == "call" and str(t_.args[0]) == ".astype" and len(t_.args) >= 3 and tm.show(t_.args[2]) in ("'ref:builtins.float'", "'ref:numpy.float64'")):
+            t_ = t_.args[0] if t_.op == "float" else t_.args[1]
+        return t_
+
+    exact = {"tilt_angle": call("cryocat.ioutils.tlt_load", sym("tlt_file")),
+             "exposure": call("cryocat.ioutils.total_dose_load", sym("dose_file"))}
+    for c, want_ in exact.items():
+        t = f.cols.get(c)
+        ctx.count(1)
+        if t is None or not wiring[c](t):
+            continue  # reported above
+        got_ = bare(t)
+        if got_.op == "call" and got_.args[0] == want_.args[0] and got_ != want_ and len(got_.args) > 2:
+            continue  # further options handed to the loader: the loader's own obligations
+        if got_ != want_ and tm.contains(t, lambda n: n.op == "call" and str(n.args[0]) in (
+                "numpy.sort", "numpy.unique", "numpy.argsort", "builtins.sorted", "numpy.flip", ".sort_values", "numpy.lexsort", "builtins.reversed")):
+            continue  # re-ordered / thinned: the row-pairing rule below reports it
+        if got_ != want_:
+            altered = tm.contains(t, lambda n: n.op in ("round", "mul", "div", "add", "sub", "int", "narrow") or (n.op == "call" and str(n.args[0]) in
+                                                   ("numpy.round", "numpy.around", "numpy.clip", "numpy.rint", "numpy.floor", "numpy.ceil", ".round", ".astype", "cast")))
+            node = last_store(it, f, c) or fn
+            if not altered:
+                raise Unsupported(f"wedge-list column {c!r} is derived from the loader's values in a way the rule does not follow: {tm.show(t)[:100]}", node)
+            ctx.finding(q, node, f"wedge-list column {c!r} must hold the values {want_.args[0].split('.')[-1]} returns, as they are; the code stores "
+                        f"{tm.show(t)[:100]} (rounded / rescaled / converted values are not the input's)", node, m)
     # row pairing: image i keeps its tilt, defocus and dose -- none of the per-image columns may be re-ordered or thinned on its own
     REORDER = ("numpy.sort", "numpy.unique", "numpy.argsort", "builtins.sorted", "numpy.flip", ".sort_values", "numpy.lexsort", "builtins.reversed")
     for c in ("tilt_angle", "defocus", "exposure"):
@@ -430,6 +485,13 @@ def o175(ctx):
         data = c_.args[0] if c_.args else kwarg(c_, "data")
         has_data = data is not None and not (isinstance(data, ast.Constant) and data.value is None)
         if has_data and kwarg(c_, "columns") is not None:
+            par_ = mr.parents.get(c_)
+            while par_ is not None and par_ is not fr_ and not isinstance(par_, ast.If):
+                par_ = mr.parents.get(par_)
+            if isinstance(par_, ast.If):
+                # built from a prepared column list only under a condition: whether that condition rules out keys that first appear in a
+                # later section is not decided here
+                raise Unsupported("the table of parsed sections is built with a prepared column list under a condition", c_)
             ctx.finding("mdoc.Mdoc._parse_images", c_, "the table of parsed sections is restricted to a prepared column list: keys that first appear in a "
                         "later section (a field missing on the first image) are silently dropped from the table and from every file written "
                         "afterwards", c_, mr)
@@ -621,6 +683,7 @@ def _obligations():
         Obligation("O17.6", "loaders: tlt_load passes arrays / lists through and returns every file value (sorted only on request); total_dose_load hands doses back as given (shared with C09)", lambda ctx: (_c09.o96(ctx), _c09.o98(ctx)), floor=12),
         Obligation("O17.1", "library calls of loaders, mdoc and wedge-list builders exist in the installed pandas", o171, floor=15),
         Obligation("O17.2", "defocus readers: U,V x 1e-4, mean=(U+V)/2, same columns; ctffind4 header skipped", o172, floor=15),
+        Obligation("O17.13", "defocus_load(<N x 5 array>): columns named in the given order, rows as given, for every N", o17_defocus_array, floor=5),
         Obligation("O17.3", "mdoc dose = exposure + prior in one row order; tlt_load sorts only file input when asked", o173, floor=8),
         Obligation("O17.4", "wedge lists: column wiring, per-tomogram lookup by tomo_id, min/max pairing", o174, floor=25),
         Obligation("O17.5", "mdoc: write filter truth table, format characters, sort only sorts, removal position->label once", o175, floor=12),
